@@ -1,2 +1,3 @@
 pub mod lines;
 pub mod exprs;
+pub mod docgen;
